@@ -12,7 +12,8 @@ type LLDP struct {
 }
 
 func (d *LLDP) Len() (n uint16) {
-	return 15
+	// chassis and port TLV: 2-byte header, subtype, id; TTL TLV: 2-byte header, seconds
+	return uint16(3+len(d.Chassis.Data)) + uint16(3+len(d.Port.Data)) + 4
 }
 
 func (d *LLDP) Read(b []byte) (n int, err error) {
